@@ -281,6 +281,12 @@ def pair_cases(draw):
 def point_pair_cases(draw):
     style = draw(gen.STYLES_ARITH)
     A = draw(gen.point_tier(style=style, name="A", label=gen.AB))
+    if A["entries"] and draw(st.integers(0, 4)) == 2:
+        # B's own span starts where A's ends, and both have a point on that instant
+        last = A["entries"][-1][0]
+        A = dict(A, maxT=last)
+        B = {"type": "point", "name": "B", "entries": [[last, "b"], [last + 1.0, "a"]], "minT": last, "maxT": last + 2.0, "style": style}
+        return {"A": A, "B": B}
     if draw(st.booleans()):
         B = draw(gen.point_tier(style=style, name="B", label=gen.AB))
     else:
